@@ -52,14 +52,18 @@ Idle == [s |-> "idle", id |-> 0, last |-> 0]      \* last: the recording answere
 Expected(b) ==
     CASE b = "equal" -> "Equal" [] b = "different" -> "Different" [] b = "bare" -> "Equal" [] b = "idleExit" -> "Equal"
       [] b \in {"playerRaises", "extractorRaises", "comparatorRaises", "dataRaises"} -> "Failure"
+      \* the replay fails *and* the worker cannot even describe the failure (building the failure result raises): the
+      \* worker answers (False, text) instead of a result, the parent turns that into the failure of this recording;
+      \* the worker lives on and the task counts towards its age
+      [] b = "reportRaises" -> "Failure"
       \* the worker answers, but the parent cannot rebuild the answer it takes from the queue (results.get raises):
       \* a failure of that recording only; the worker is alive and idle and keeps its age
       [] b = "unreadable" -> "Failure"
       [] b = "exits" -> "FailureDied" [] b \in {"hangs", "late"} -> "FailureTimeout"
 
-\* what a worker that completes recording k puts on the result queue
-ResultOf(k) == [id |-> k, verdict |-> Expected(beh[k]),
-                attached |-> IF beh[k] \in {"playerRaises", "unreadable"} THEN 0 ELSE k]
+\* what a worker that completes recording k puts on the result queue (ok: the `succeeded' flag of the pair)
+ResultOf(k) == [id |-> k, verdict |-> Expected(beh[k]), ok |-> beh[k] # "reportRaises",
+                attached |-> IF beh[k] \in {"playerRaises", "unreadable", "reportRaises"} THEN 0 ELSE k]
 
 Q == IF FreshQueues THEN gen ELSE 1          \* index of the queue pair the parent currently uses
 QW(g) == IF FreshQueues THEN g ELSE 1        \* ... and the pair worker g was created with
@@ -125,7 +129,7 @@ W_IdleExit(g) ==
 \* the worker answers just after the parent gave up (and before it is killed)
 W_LatePut(g) ==
     /\ alive[g] /\ wst[g].s = "playing" /\ beh[wst[g].id] = "late" /\ pc = "gaveup" /\ g = gen
-    /\ results' = [results EXCEPT ![QW(g)] = Append(@, [id |-> wst[g].id, verdict |-> "Equal", attached |-> wst[g].id])]
+    /\ results' = [results EXCEPT ![QW(g)] = Append(@, [id |-> wst[g].id, verdict |-> "Equal", ok |-> TRUE, attached |-> wst[g].id])]
     /\ wst' = [wst EXCEPT ![g] = Idle]
     /\ lateput' = lateput \cup {wst[g].id}      \* history: which late recordings did answer before the kill
     /\ UNCHANGED <<beh, stop, i, pc, gen, alive, age, served, tasks, out, term, known, orphans>>
